@@ -909,7 +909,7 @@ def run_s2(ctx, n, use_lean=True):
                 if st != "value" or cells is None:
                     ctx.count(f"S2:chain:{label}:lazy")
                     continue
-                ok, bad = ser.tables_equal(cells, model)
+                ok, bad = tables_match(cells, model)
                 if not ok:
                     ctx.fail("input", f"C04.S2.chain-{label}-value", witness=wit,
                              expected=str(model[bad] if bad is not None and bad >= 0 else model)[:400],
@@ -919,6 +919,18 @@ def run_s2(ctx, n, use_lean=True):
             if ok_all:
                 ctx.count("S2:chain:ok")
                 ctx.case(nontrivial_key=("chain", repr(wit)))
+
+
+def tables_match(cells, model):
+    """Exact comparison; values beyond 2^50 in magnitude (products over absent variables reach 9^27) are not exactly
+    representable in float64, the implementation's carrier: those tables are compared to 1e-12 relative instead."""
+    ok, bad = ser.tables_equal(cells, model)
+    if ok:
+        return ok, bad
+    big = any(isinstance(x, Fraction) and abs(x) > 2 ** 50 for c in model if c is not None for x in c[1])
+    if big:
+        return ser.tables_equal(cells, model, 1e-12)
+    return ok, bad
 
 
 def _tables_same(a, b):
@@ -1011,7 +1023,7 @@ def s2_compare(ctx, wit, py, r, ins, renv, exp, model, kinds, interp):
         return
     # … and (values equal over the whole expected input space, the result broadcast over omitted names) means
     # an omitted input is one the value does not depend on
-    ok, bad = ser.tables_equal(cells, model)
+    ok, bad = tables_match(cells, model)
     if not ok:
         ctx.fail("input", "C04.S2.value", witness=wit,
                  expected={"inputs": ins, "real_env": renv, "cell": bad,
